@@ -222,6 +222,15 @@ func c20One(d *verifDump, list []string, ebpf, edt bool, prov, vt string, np, ga
 			}
 		}
 	}
+	for _, p := range doc.Plugins {
+		// EDT shaping is done by the eBPF chainer's bandwidth manager; the plugin skips its own tc shaping in that
+		// mode: a chain that says edt without a chainer shapes nothing
+		if ty, _ := p["type"].(string); ty == "terway" && ebpf {
+			if bm, _ := p["bandwidth_mode"].(string); bm == "edt" && cilium == 0 {
+				d.violate("C20.bandwidth-mode-unsupported", "edt-without-chainer", "bandwidth_mode=edt in a chain without an eBPF chainer: nobody enforces pod bandwidth", caseDesc)
+			}
+		}
+	}
 	if (selected == "ipvlan" || selected == "datapathv2") && cilium == 0 {
 		d.violate("C20.chainer-missing", selected, "datapath "+selected+" selected but no cilium-cni chainer in the list", caseDesc)
 	}
